@@ -910,6 +910,11 @@ func (b *Reader) Len() int {
 	return len(b.ref)
 }
 
+// Remaining returns the number of bytes that have not been read yet.
+func (b *Reader) Remaining() int {
+	return b.buf.Len()
+}
+
 // NewReader returns *Reader
 func NewReader(data []byte) *Reader {
 	return &Reader{buf: bytes.NewReader(data), ref: data}
